@@ -12,6 +12,7 @@ THEOREMS = [
     "Cspuz.C15.C15_seq_terminates",
     "Cspuz.C15.C15_borders_roundtrip",
     "Cspuz.C15.C15_rooms",
+    "Cspuz.C15.C15_valued_rooms",
     "Cspuz.C15.C15_puzzles_wf",
 ]
 
@@ -268,7 +269,7 @@ def search(ctx, why):
         for n in range(0, 2 * d + 2):
             v = [(i * 5 + 1) % b for i in range(n)]
             _check_value(found, "multidigit:roundtrip", ps.Seq(ps.MultiDigit(b, d), n), "Seq(MultiDigit(%d,%d),%d)" % (b, d, n), v, v, 1, 1)
-    for mi, ms in ((4, 2), (1, 3), (8, 3)):
+    for mi, ms in ((4, 2), (1, 3), (2, 4)):
         c = lambda n: ps.Seq(ps.OneOf(ps.Spaces(-1, "g"), ps.IntSpaces(-1, mi, ms)), n)
         for v in itertools.product([-1, 0, mi], repeat=4):
             _check_value(found, "intspaces:roundtrip", c(4), "Seq(OneOf(Spaces(-1,'g'),IntSpaces(-1,%d,%d)),4)" % (mi, ms), list(v), list(v), 1, 1)
